@@ -2,7 +2,7 @@ import Driver.Proto
 import Uft.Model.Mcount
 import Uft.Gen.Layout
 /- driver for the libmcount hook model (C02, C05); see harness/h1_driver.c for the op set
-   CFG k=v …   TRIG <fn> item…   FSIZE <fn> <n>   T n   E pg|cyg <fn>   X   FLUSH   END -/
+   CFG k=v … (optional f7fixed=0|1, default 1 = the code with the repair of F-C07-TRACEOFF-FLUSH)   TRIG <fn> item…   FSIZE <fn> <n>   T n   E pg|cyg <fn>   X   FLUSH   END -/
 namespace Driver.Mcount
 open Uft.Mcount
 
@@ -40,6 +40,7 @@ def applyCfg (c : Cfg) (item : String) : Cfg :=
   | "enabled" => { c with enabled0 := n != 0 }
   | "f4fixed" => { c with f4fixed := n != 0 }
   | "s4fixed" => { c with s4fixed := n != 0 }
+  | "f7fixed" => { c with f7fixed := n != 0 }     -- default 1: the flush at the TRACE_OFF update (F-C07-TRACEOFF-FLUSH)
   | _ => c
 
 def applyTrig (t : Trigger) (item : String) : Trigger :=
